@@ -19,7 +19,7 @@ def relevant(case):
     return [F(x) for x in case["pos"] + case["neg"]], case["ep"] + case["en"]
 
 
-def gen_scores(rng, exact, metric, style=None):
+def gen_scores(rng, exact, metric, style=None, allow_empty=False):
     """returns (pos, neg, ep, en); exact => every float op of the threshold path for `metric` is exact
     (relevant class size N and N + easy are powers of two, small dyadic scores)"""
     if exact:
@@ -41,6 +41,12 @@ def gen_scores(rng, exact, metric, style=None):
         style = style or rng.choice(["ties", "dyadic", "ints", "distinct", "float", "wide-int"])
         ep = rng.choice([0, 0, 1, 2, 5, 30])
         en = rng.choice([0, 0, 1, 3, 7])
+        if allow_empty and metric in ("topr", "tonr") and rng.random() < 0.15:
+            # one class has no scored sample but easy ones: they still count in the all-sample denominator
+            if rng.random() < 0.5:
+                nneg, en = 0, rng.choice([2, 3, 7, 12])
+            else:
+                npos, ep = 0, rng.choice([2, 3, 7, 12])
     pos = score_list(rng, npos, style)
     neg = score_list(rng, nneg, style)
     return pos, neg, ep, en
@@ -66,13 +72,27 @@ def gen_targets(rng, n_rel, exact, k=5):
 
 def thr_case(rng, exact, metric=None, method=None):
     metric = metric or rng.choice(METRICS)
-    pos, neg, ep, en = gen_scores(rng, exact, metric)
+    pos, neg, ep, en = gen_scores(rng, exact, metric, allow_empty=True)
+    mixed = None
+    if not exact and pos and neg and rng.random() < 0.12:
+        # integer-typed scores in one class (the longer one), fractional floats in the other, whose values reach beyond
+        mixed = rng.choice(["pos", "neg"])
+        n_int = max(len(pos), len(neg)) + rng.randint(0, 3)
+        ints = [Fraction(rng.randint(0, 6)) for _ in range(n_int)]
+        fr = [Fraction(rng.choice([-1, -3, 13, 15, 5, 7]), 2) for _ in range(rng.randint(1, min(len(pos), len(neg))))]
+        pos, neg = (ints, fr) if mixed == "pos" else (fr, ints)
     sc, ec = rng.choice(CONFIGS)
     case = {"pos": [enc(x) for x in pos], "neg": [enc(x) for x in neg], "ep": ep, "en": en, "sc": sc, "ec": ec,
             "metric": metric, "method": method or rng.choice(["linear", "linear", "lower", "higher"]), "exact": exact}
     rel, _ = relevant(case)
     case["targets"] = [enc(t) for t in gen_targets(rng, len(rel), exact)]
     case["dtype"] = pick_dtype(rng, pos + neg)
+    if rng.random() < 0.15 and pos and neg:
+        # the two classes arrive in different dtypes (e.g. integer-typed scores of one class, floats of the other)
+        case["dtype_pos"], case["dtype_neg"] = pick_dtype(rng, pos), pick_dtype(rng, neg)
+    if mixed:
+        case["dtype"] = "float64"
+        case["dtype_pos"], case["dtype_neg"] = ("int64", "float64") if mixed == "pos" else ("float64", "int64")
     # history: other threshold queries made on the same object before the one under test
     case["warmup"] = rng.sample(METRICS, rng.choice([0, 0, 1, 2]))
     return case
@@ -83,8 +103,8 @@ def make_scores(case):
     from score_analysis import Scores
 
     dt = np.dtype(case.get("dtype", "float64"))     # the values are exactly representable in the chosen dtype
-    pos = np.array([fl(x) for x in case["pos"]], dtype=float).astype(dt)
-    neg = np.array([fl(x) for x in case["neg"]], dtype=float).astype(dt)
+    pos = np.array([fl(x) for x in case["pos"]], dtype=float).astype(np.dtype(case.get("dtype_pos", dt)))
+    neg = np.array([fl(x) for x in case["neg"]], dtype=float).astype(np.dtype(case.get("dtype_neg", dt)))
     return Scores(pos, neg, nb_easy_pos=case["ep"], nb_easy_neg=case["en"], score_class=case["sc"], equal_class=case["ec"])
 
 
